@@ -211,7 +211,7 @@ Definition add_change (r : reader) (w : Z) (data : Z) (k : kind) (h : Z) (t : ts
             let owns7 :=
               match find_own h owns3 with
               | Some _ => upd_own h (fun x => if o_last x <? rts then mkO (o_inst x) (o_owner x) rts else x) owns3
-              | None => owns3 ++ [mkO h w rts]
+              | None => if is_alive_kind k then owns3 ++ [mkO h w rts] else owns3
               end in
             (mkR samples6 insts5 owns7 (r_matched r) q, Added)
           end
